@@ -59,7 +59,7 @@ def initial_state(spec: T.Dict[str, T.Any]) -> T.Dict[str, T.Any]:
     return {
         'name': spec['name'], 'grp': spec['grp'], 'kind': kind,
         'live': True, 'wv': 1, 'rev': spec.get('rev', 'master') if kind == 'git' else '',
-        'ov': int(spec.get('ov', 0)) if kind in ('file', 'redirect') else 0,
+        'ov': int(spec.get('ov', 0)) if kind in ('file', 'redirect') else 0, 'omod': False,
         'dir': 'present' if kind == 'none' else 'absent',
         'src': 0, 'aov': 0, 'mod': False, 'cache': [],
         'repo': False, 'cur': '', 'det': [],
@@ -70,8 +70,11 @@ def initial_state(spec: T.Dict[str, T.Any]) -> T.Dict[str, T.Any]:
 
 
 class World:
-    def __init__(self, root: Path, specs: T.List[T.Dict[str, T.Any]]):
+    def __init__(self, root: Path, specs: T.List[T.Dict[str, T.Any]], maingit: bool = False):
         self.root = root
+        self.maingit = maingit
+        # whether the wrap file names a patch_directory (fixed for the life of the world; `ov` is what is in it)
+        self.has_ov = {s['name']: bool(int(s.get('ov', 0))) and s['kind'] in ('file', 'redirect') for s in specs}
         self.src = root / 'src'
         self.sp = self.src / 'subprojects'
         self.up = root / 'up'
@@ -122,7 +125,7 @@ class World:
                f'source_url = file://{self.up / an}\n'
                f'source_filename = {an}\n'
                f'source_hash = {hashlib.sha256(data).hexdigest()}\n')
-        if w['ov']:
+        if self.has_ov[w['name']]:
             txt += f"patch_directory = {w['name']}-ov\n"
         txt += f"\n[provide]\ndependency_names = {w['name']}-dep\n"
         return txt
@@ -139,9 +142,12 @@ class World:
         elif w['kind'] == 'git':
             self.wrapfile(w).write_text(self._git_wrap_text(w))
 
-    def write_overlay(self, w: T.Dict[str, T.Any]) -> None:
+    def overlay_dir(self, w: T.Dict[str, T.Any]) -> Path:
         base = self.sp if w['kind'] == 'file' else self.sp / (w['name'] + '-host') / 'subprojects'
-        d = base / 'packagefiles' / (w['name'] + '-ov')
+        return base / 'packagefiles' / (w['name'] + '-ov')
+
+    def write_overlay(self, w: T.Dict[str, T.Any]) -> None:
+        d = self.overlay_dir(w)
         d.mkdir(parents=True, exist_ok=True)
         (d / 'overlay.txt').write_text(f"ov{w['ov']}\n")
 
@@ -196,6 +202,12 @@ class World:
                 if not (d / 'meson.build').exists():
                     (d / 'meson.build').write_text(f"project('{name}')\n")
                 (d / 'own.txt').write_text('a directory without a wrap\n')
+        if self.maingit:
+            # the main project is a git repository of its own (as most are); the subprojects are not tracked by it
+            self.git(['init', '-q', '-b', 'master'], self.src)
+            self.git(['add', 'meson.build', 'main.c', 'subprojects/README.user'], self.src)
+            self.git(['commit', '-q', '-m', 'main project'], self.src)
+            (self.src / 'main.c').write_text('int main(void) { return 1; } /* uncommitted work in the main project */\n')
         self.foreign_digest = self._foreign()
 
     # ------------------------------------------------------------------ environment events
@@ -268,12 +280,18 @@ class World:
                 for v in (1, 2):
                     if txt == self._file_wrap_text(w0, v):
                         w['wv'] = v
-            base = self.sp if kind == 'file' else self.sp / (name + '-host') / 'subprojects'
-            ovf = base / 'packagefiles' / (name + '-ov') / 'overlay.txt'
+            ovd = self.overlay_dir(w)
+            ovf = ovd / 'overlay.txt'
             w['ov'] = 0
+            w['omod'] = False
             if ovf.is_file():
                 t = ovf.read_text().strip()
                 w['ov'] = {'ov1': 1, 'ov2': 2}.get(t, 9)
+            if ovd.is_dir():
+                w['omod'] = (ovd / 'local.txt').is_file()
+                # the wrap-hash file is meson's own bookkeeping; whether `--save` takes it along is not specified
+                if {p.name for p in ovd.iterdir()} - {'overlay.txt', 'local.txt', HASHFILE}:
+                    w['ov'] = 9
             cache = []
             for v in (1, 2):
                 if (self.sp / 'packagecache' / self.archive_name(w, v)).is_file():
@@ -359,21 +377,30 @@ class World:
             owned.add(self.sp / (name + '.wrap'))
             if w['kind'] == 'redirect':
                 owned.add(self.wrapfile(w))
+            if self.has_ov[name]:
+                owned.add(self.overlay_dir(w))
         owned.add(self.sp / 'packagecache')
         owned.add(self.sp / '.wraplock')
+        owned.add(self.src / '.git')
+        # the user's local file in a directory without a wrap is projected (mod), everything else in there is foreign
+        projected = {self.sp / n / 'local.txt' for n in self.order if self.state[n]['kind'] == 'none'}
         h = hashlib.sha256()
+        if self.maingit:
+            # the main project's repository: where HEAD is, its refs, its stash, its uncommitted work
+            for args in (['rev-parse', 'HEAD'], ['symbolic-ref', '-q', 'HEAD'], ['for-each-ref'], ['stash', 'list'],
+                         ['status', '--porcelain', '--untracked-files=no']):
+                ok, out = self.git_ok(args, self.src)
+                h.update((' '.join(args) + f' {ok}\n' + out).encode())
         for base, dirs, files in os.walk(self.src):
             b = Path(base)
             dirs[:] = sorted(x for x in dirs if (b / x) not in owned)
             h.update(('D ' + str(b.relative_to(self.src)) + '\n').encode())
             for f in sorted(files):
                 p = b / f
-                if p in owned:
+                if p in owned or p in projected:
                     continue
                 if p.is_symlink():
                     h.update(('L ' + str(p.relative_to(self.src)) + ' ' + os.readlink(p) + '\n').encode())
-                elif 'packagefiles' in p.parts and p.name == 'overlay.txt':
-                    continue        # projected separately (ov)
                 else:
                     h.update(('F ' + str(p.relative_to(self.src)) + ' ').encode() + hashlib.sha256(p.read_bytes()).digest())
         return h.hexdigest()
